@@ -82,7 +82,8 @@ type Definitions struct {
 	DefLang      string `json:"defLang,omitempty"`      // "" = expr, "xpath": the definitions-level expressionLanguage
 	ImplicitLang bool   `json:"implicitLang,omitempty"` // conditions in the definitions-level language do not repeat it
 	FlowOrder    int    `json:"flowOrder,omitempty"`    // document order of the sequenceFlow elements: 0 as created, 1 reversed, 2 odd positions first (the order a node LISTS its outgoing flows in is what counts, not this one)
-	FlowsFirst   bool   `json:"flowsFirst,omitempty"`   // the sequenceFlow elements stand in front of the flow nodes
+	FlowsFirst   bool   `json:"flowsFirst,omitempty"`
+	ExplicitDefaults bool `json:"explicitDefaults,omitempty"` // optional attributes are spelled out with the value BPMN gives them by default (eventGatewayType="Exclusive", gatewayDirection="Unspecified", isInterrupting="true", startQuantity="1", ...)   // the sequenceFlow elements stand in front of the flow nodes
 	Zoo          string `json:"zoo,omitempty"`          // raw XML of a further, non-executable process (and root elements) the engine never runs
 	ctr map[string]int
 }
@@ -93,6 +94,7 @@ var emitImplicitLang string
 // emitFlowOrder / emitFlowsFirst: document order variations in force while a document is being written
 var emitFlowOrder int
 var emitFlowsFirst bool
+var emitExplicitDefaults bool
 
 // fresh returns a new id with prefix p; every prefix has its own counter, so that adding wrapper
 // nodes or flows does not rename the activities.
@@ -277,6 +279,24 @@ func (g *Graph) emitNodes(b *strings.Builder, ind string) {
 		if n.Default != "" {
 			attrs += fmt.Sprintf(` default="%s"`, n.Default)
 		}
+		if emitExplicitDefaults {
+			switch n.Kind {
+			case "start":
+				attrs += ` isInterrupting="true" parallelMultiple="false"`
+			case "task":
+				attrs += ` isForCompensation="false" startQuantity="1" completionQuantity="1"`
+			case "sub":
+				attrs += ` isForCompensation="false" startQuantity="1" completionQuantity="1" triggeredByEvent="false"`
+			case "xor", "and", "or":
+				attrs += ` gatewayDirection="Unspecified"`
+			case "evgw":
+				attrs += ` gatewayDirection="Unspecified" eventGatewayType="Exclusive" instantiate="false"`
+			case "catch":
+				if !n.Parallel {
+					attrs += ` parallelMultiple="false"`
+				}
+			}
+		}
 		fmt.Fprintf(b, "%s<bpmn:%s%s>\n", ind, tag, attrs)
 		if n.Kind == "task" && (len(n.Results) > 0 || len(n.DataOut) > 0 || len(n.Props) > 0 || n.Timeout != "" || n.Retries != 0) {
 			fmt.Fprintf(b, "%s  <bpmn:extensionElements>\n", ind)
@@ -397,8 +417,8 @@ func (d *Definitions) XML() string {
 		emitImplicitLang = defLang
 		defer func() { emitImplicitLang = "" }()
 	}
-	emitFlowOrder, emitFlowsFirst = d.FlowOrder, d.FlowsFirst
-	defer func() { emitFlowOrder, emitFlowsFirst = 0, false }()
+	emitFlowOrder, emitFlowsFirst, emitExplicitDefaults = d.FlowOrder, d.FlowsFirst, d.ExplicitDefaults
+	defer func() { emitFlowOrder, emitFlowsFirst, emitExplicitDefaults = 0, false, false }()
 	b.WriteString(`<bpmn:definitions xmlns:bpmn="http://www.omg.org/spec/BPMN/20100524/MODEL" xmlns:olive="http://olive.io/spec/BPMN/MODEL" xmlns:xsi="http://www.w3.org/2001/XMLSchema-instance" id="Defs" targetNamespace="http://bpmn.io/schema/bpmn" expressionLanguage="` + defLang + `"` + extra + `>` + "\n")
 	sigs := append([]string{}, d.Signals...)
 	sort.Strings(sigs)
